@@ -195,7 +195,9 @@ def check(pid, tier, seed):
             # texts the library itself uses as markers / words: ordinary values like any other
             "_none_", "(null)", "NULL", "false", "[A]", "yes", "0",
             # text that means something to the formatting functions
-            "100%", "%%", "%s", "%d%%", "a\\nb", "\\"]
+            "100%", "%%", "%s", "%d%%", "a\\nb", "\\",
+            # bytes beyond ASCII (UTF-8 here, written byte by byte), at the end of the value in particular
+            "caf\xc3\xa9", "3 \xe2\x82\xac", "\xc3\xa4 \xc3\xb6", "Zo\xc3\xab x", "\xff"]
     for _ in range(nr):
         hist = []
         for _ in range(rnd.randint(1, 40)):
